@@ -329,7 +329,7 @@ def _expr(e, st, bm):
     if k == 'fail':
         return 'Fail()'
     if k == 'let':
-        return '(let %s = %s in %s)' % (e[1], X(e[2]), X(e[3]))
+        return '(let %s %s %s in %s)' % (e[1], st.define(), X(e[2]), X(e[3]))
     if k == 'where':
         return '(%s where %s)' % (X(e[1]), X(e[2]))
     if k == 'apply':
@@ -399,12 +399,13 @@ def grammar(g, st=DEFAULT, bm=False, name=None, extends=None, ign_first=False,
                 if mk == 'field':
                     ms.append('    %s%s %s' % (m[1], ':' if st.define() == ':' else ' ' + st.define(), expr(m[2], st, bm)))
                 elif mk == 'let':
-                    ms.append('    let %s: %s' % (m[1], expr(m[2], st, bm)))
+                    d = ':' if st.definer == '=' else st.define()       # (default spelling: `let x: e`)
+                    ms.append('    let %s%s %s' % (m[1], ':' if d == ':' else ' ' + d, expr(m[2], st, bm)))
                 elif mk == 'pass':
                     ms.append('    pass %s' % expr(m[2], st, bm))
                 elif mk == 'req':
                     ms.append('    requires `%s`' % py_src(m[2]))
-            stmts.append('class %s%s {\n%s\n}' % (nm, params, '\n'.join(ms)))
+            stmts.append('class %s%s {\n%s\n}' % (nm, params, (' ;\n' if st.sep == ';' else '\n').join(ms)))
     if ign_first:
         stmts = ign + stmts
     else:
@@ -422,7 +423,7 @@ def grammar(g, st=DEFAULT, bm=False, name=None, extends=None, ign_first=False,
     sep = st.sep
     if sep == ';':
         # class bodies contain newlines; ';' between statements is still fine
-        text = (' ;\n' if True else ';').join(out[1:] if name else out)
+        text = ' ;\n'.join(out[1:] if name else out) + ' ;'          # also after the last statement
         if name:
             text = out[0] + '\n' + text
     else:
